@@ -138,8 +138,8 @@ def cases(ctx):
     specs, hist = rhistory(rng, nplayers, wait)
     yield ("free", specs, nplayers, hist, wait,
            rng.choice(["close", "with", "close2"]), rng.getrandbits(32))
-  if not ctx.quick:
-    for _ in ctx.loop(0, 48000):
+  if True:
+    for _ in ctx.loop(160, 48000):
       wait = rng.random() < 0.45
       nplayers = rng.randint(1, 3)
       specs, hist = rhistory(rng, nplayers, wait)
@@ -407,5 +407,4 @@ def finish(ctx):
   for k in ["wait:True", "wait:False", "style:with", "style:close",
             "style:close2", "players:1", "players:2", "players:3"]:
     ctx.need(k, 50)
-  if not ctx.quick:
-    ctx.need("line-level-scenarios", 100)
+  ctx.need("line-level-scenarios", 100)
